@@ -111,6 +111,9 @@ pub struct PerNode {
     pub ghost_unc_valid: bool,
     pub leader_tail: u64,
     pub batch_on: bool,
+    // ---- C15: followers whose snapshot request was stepped into this node during its current
+    // leadership (independent of Progress.pending_request_snapshot)
+    pub snap_asked: BTreeSet<u64>,
     // ---- C09
     pub crashed: bool,
 }
@@ -961,7 +964,7 @@ impl Monitors {
             }
         }
         let mut f = Fp::new();
-        f.u(hi - lo).u(how.len() as u64);
+        f.u(hi.saturating_sub(lo)).u(how.len() as u64);
         if let Some(r) = nodes[v].raw.as_ref() {
             f.u(r.raft.state as u64).u(r.raft.term);
         }
